@@ -16,3 +16,17 @@ W int w_read_double(const char* buf, unsigned long len, unsigned long pos, Out* 
 W int w_read_name(const char* buf, unsigned long len, unsigned long pos, Out* o) { RD(SKIP; fmt::StringRef s = r.ReadName(); o->soff = s.data() - buf; o->slen = s.size()) }
 W int w_read_string(const char* buf, unsigned long len, unsigned long pos, Out* o) { RD(SKIP; fmt::StringRef s = r.ReadString(); o->soff = s.data() ? s.data() - buf : -1; o->slen = s.size()) }
 W int w_read_eol(const char* buf, unsigned long len, unsigned long pos, Out* o) { RD(SKIP; r.ReadTillEndOfLine()) }
+// ---- binary token layer: BinaryReader<IdentityConverter> over the same kind of buffer; op: 0 ReadInt<int>, 1 ReadUInt, 2 ReadInt<short>, 3 ReadInt<long>, 4 ReadDouble, 5 ReadString
+W int w_bin(const char* buf, unsigned long len, unsigned long pos, int op, Out* o) {
+  try {
+    TextReader<> t(mp::NLStringRef(buf, len), "in");
+    mp::internal::BinaryReader<> r(t);
+    for (unsigned long i = 0; i < pos; ++i) r.ReadChar();
+    switch (op) {
+      case 0: o->ival = r.ReadInt<int>(); break; case 1: o->ival = r.ReadUInt(); break; case 2: o->ival = r.ReadInt<short>(); break; case 3: o->ival = r.ReadInt<long>(); break;
+      case 4: o->dval = r.ReadDouble(); break;
+      default: { fmt::StringRef s = r.ReadString(); o->soff = s.data() ? s.data() - buf : -1; o->slen = s.size(); }
+    }
+    o->consumed = r.ptr() - buf; return 0;
+  } catch (const mp::BinaryReadError& e) { o->line = 1; o->col = 1; return 1; } catch (const mp::ReadError& e) { o->line = e.line(); o->col = e.column(); return 1; } catch (...) { return 2; }
+}
